@@ -26,7 +26,7 @@ from __future__ import annotations
 import ast
 import itertools
 
-from .repo import AnalysisError, dotted, norm
+from .repo import AnalysisError, dotted, norm, walk_no_nested
 
 
 # ----------------------------------------------------------------------
@@ -558,6 +558,9 @@ _DATA_METHODS = {"total_seconds", "group", "groups", "date", "time", "isoweekday
 NOT_NONE_OPS = {"str", "repr", "len", "new", "fstr", "format", "int", "float", "bool", "tuple", "list", "set", "dict", "sorted", "frozenset", "not", "slice"}
 
 
+_IS_GEN = {}  # id of a function node -> it is a generator function
+
+
 class Interp:
     def __init__(self, policy: Policy, module_rel: str | None = None):
         self.policy = policy
@@ -577,13 +580,43 @@ class Interp:
         env = dict(args)
         out = Out()
         _TOUCHED.add(id(func))
+        is_gen = _IS_GEN.get(id(func))
+        if is_gen is None:
+            is_gen = _IS_GEN[id(func)] = not isinstance(func, ast.Lambda) and any(isinstance(n, (ast.Yield, ast.YieldFrom)) for n in walk_no_nested(func, include_self=False))
+        if is_gen:
+            env["$yielded"] = ListV((), "gen")
         res = self.exec_block(func.body, [cfg.with_env(env)])
         out.merge(res)
         # falling off the end returns None
         for c in res.get("normal"):
             out.d["normal"].pop(c, None)
             out.add("return", c.set("$ret", NONE))
+        if is_gen:
+            # a generator function: calling it gives the sequence of the values it yields (evaluated eagerly - its body is taken to have no
+            # effects that depend on when the consumer asks for the next value)
+            rets = list(out.get("return"))
+            out.d["return"] = {}
+            for c in rets:
+                out.add("return", c.set("$ret", c.env.get("$yielded", ListV((), "gen"))))
         return out
+
+    def e_Yield(self, node, cfg, out):
+        res = []
+        for c, v in (self.ev(node.value, cfg, out) if node.value is not None else [(cfg, NONE)]):
+            acc = c.env.get("$yielded")
+            if not isinstance(acc, ListV):
+                raise AnalysisError(f"absint: yield outside an interpreted generator function at line {getattr(node, 'lineno', 0)}")
+            res.append((c.set("$yielded", ListV(acc.items + (v,), "gen")), NONE))
+        return res
+
+    def e_YieldFrom(self, node, cfg, out):
+        res = []
+        for c, v in self.ev(node.value, cfg, out):
+            acc = c.env.get("$yielded")
+            if not isinstance(acc, ListV) or not isinstance(v, ListV):
+                raise AnalysisError(f"absint: unsupported yield from at line {getattr(node, 'lineno', 0)}")
+            res.append((c.set("$yielded", ListV(acc.items + v.items, "gen")), NONE))
+        return res
 
     # ------------------------------------------------------------------
     # statements
@@ -1104,6 +1137,22 @@ class Interp:
                         ncs.append(c1)
             cs = ncs
         o = self.exec_block(stmt.body, cs)
+        # `with contextlib.suppress(A, B):` is `try: ... except (A, B): pass`
+        sup = []
+        for item in stmt.items:
+            ce = item.context_expr
+            if isinstance(ce, ast.Call) and dotted(ce.func) in ("contextlib.suppress", "suppress"):
+                sup += [(dotted(a) or "").split(".")[-1] for a in ce.args]
+        if sup:
+            kept = {}
+            for c in list(o.get("raise")):
+                exc = c.env.get("$exc")
+                cls = getattr(exc, "cls", None)
+                if cls is not None and any(cls == n or exc_is_subclass(cls, n) for n in sup):
+                    o.add("normal", c.unset("$exc") if "$exc" in c.env else c)
+                else:
+                    kept[c] = None
+            o.d["raise"] = kept
         out.merge(o)
         return out
 
